@@ -7,6 +7,7 @@
 
 #include "crash.h"
 #include "teakra/teakra.h"
+#include "teakra/teakra_c.h"
 
 namespace {
 
@@ -371,6 +372,146 @@ vf::Result check(const Case& cs) {
     return vf::Result::pass();
 }
 
+// ---- c_binding: the host side of the handshake through the C binding -------------------------------------------------------
+// The same generated history of host calls and DSP-side register accesses drives a C++ facade instance and a C-binding
+// context; every returned value, every handler invocation and the DSP-side registers must agree after every operation
+// ("the host API" of the property is both of them).
+struct BOp {
+    unsigned kind = 0; // see apply below
+    unsigned ch = 0;
+    uint16_t v = 0;
+};
+using BCase = std::vector<BOp>;
+std::string bencode(const BCase& c) {
+    std::string s;
+    for (auto& op : c)
+        s += "b " + vf::hex(op.kind) + " " + vf::hex(op.ch) + " " + vf::hex(op.v) + "\n";
+    return s;
+}
+BCase bdecode(const std::string& text) {
+    BCase c;
+    for (auto& l : vf::lines(text)) {
+        auto t = vf::split_ws(l);
+        if (t.size() < 4 || t[0] != "b")
+            continue;
+        c.push_back({(unsigned)vf::unhex(t[1]) % 16, (unsigned)vf::unhex(t[2]) % 3, (uint16_t)vf::unhex(t[3])});
+    }
+    return c;
+}
+struct Counters {
+    unsigned data[3] = {0, 0, 0}, sem = 0;
+};
+vf::Result bcheck(const BCase& cs) {
+    static Teakra::Teakra* cpp = new Teakra::Teakra(Teakra::UserConfig{});
+    static TeakraContext* cb = Teakra_Create();
+    static Counters kc, kb;
+    static bool installed = false;
+    if (!installed) {
+        installed = true;
+        for (int i = 0; i < 3; ++i) {
+            cpp->SetRecvDataHandler(i, [i] { ++kc.data[i]; });
+            Teakra_SetRecvDataHandler(cb, (uint8_t)i, [](void* u) { ++*(unsigned*)u; }, &kb.data[i]);
+        }
+        cpp->SetSemaphoreHandler([] { ++kc.sem; });
+        Teakra_SetSemaphoreHandler(cb, [](void* u) { ++*(unsigned*)u; }, &kb.sem);
+    }
+    cpp->Reset();
+    Teakra_Reset(cb);
+    kc = Counters();
+    kb = Counters();
+    std::string trace;
+    static const uint16_t kDspRegs[] = {0x0C0, 0x0C4, 0x0C8, 0x0CC, 0x0CE, 0x0D0, 0x0D2, 0x0D4, 0x0D6, 0x0D8, 0x200};
+    bool saw_send = false, saw_sem = false;
+    for (size_t i = 0; i < cs.size(); ++i) {
+        const BOp& op = cs[i];
+        uint32_t ra = 0, rb = 0;
+        const uint8_t ch = (uint8_t)op.ch;
+        switch (op.kind) {
+        case 0:
+            cpp->SendData(ch, op.v), Teakra_SendData(cb, ch, op.v), saw_send = true, trace += "send" + std::to_string(ch) + " ";
+            break;
+        case 1:
+            ra = cpp->RecvData(ch), rb = Teakra_RecvData(cb, ch), trace += "recv" + std::to_string(ch) + " ";
+            break;
+        case 2:
+            ra = cpp->PeekRecvData(ch), rb = Teakra_PeekRecvData(cb, ch), trace += "peek" + std::to_string(ch) + " ";
+            break;
+        case 3:
+            ra = cpp->SendDataIsEmpty(ch), rb = Teakra_SendDataIsEmpty(cb, ch) != 0, trace += "empty?" + std::to_string(ch) + " ";
+            break;
+        case 4:
+            ra = cpp->RecvDataIsReady(ch), rb = Teakra_RecvDataIsReady(cb, ch) != 0, trace += "ready?" + std::to_string(ch) + " ";
+            break;
+        case 5:
+            cpp->SetSemaphore(op.v), Teakra_SetSemaphore(cb, op.v), saw_sem = true, trace += "set(" + vf::hex(op.v) + ") ";
+            break;
+        case 6:
+            cpp->ClearSemaphore(op.v), Teakra_ClearSemaphore(cb, op.v), saw_sem = true, trace += "clear(" + vf::hex(op.v) + ") ";
+            break;
+        case 7:
+            cpp->MaskSemaphore(op.v), Teakra_MaskSemaphore(cb, op.v), saw_sem = true, trace += "mask(" + vf::hex(op.v) + ") ";
+            break;
+        case 8:
+            ra = cpp->GetSemaphore(), rb = Teakra_GetSemaphore(cb), trace += "sem? ";
+            break;
+        case 9: // DSP side writes a reply / semaphore / mask / acknowledge / interrupt-disable register
+        case 10: {
+            static const uint16_t w[] = {0x0C0, 0x0C4, 0x0C8, 0x0CC, 0x0CE, 0x0D0, 0x0D4};
+            uint16_t off = w[(op.ch + 3 * (op.v & 3)) % 7];
+            cpp->MMIOWrite(off, op.v), Teakra_MMIOWrite(cb, off, op.v), trace += "w[" + vf::hex(off) + "]=" + vf::hex(op.v) + " ";
+            break;
+        }
+        case 11: // DSP side reads CMDi (clears the ready flag)
+            ra = cpp->MMIORead((uint16_t)(0x0C2 + 4 * ch)), rb = Teakra_MMIORead(cb, (uint16_t)(0x0C2 + 4 * ch)), trace += "cmd" + std::to_string(ch) + " ";
+            break;
+        case 12: // the DSP data path (window at its default base)
+            cpp->DataWrite((uint16_t)(0x80C0 + 4 * ch), op.v, false), Teakra_DataWrite(cb, (uint16_t)(0x80C0 + 4 * ch), op.v, false), trace += "dw ";
+            break;
+        case 13:
+            ra = cpp->DataRead((uint16_t)(0x80D6 + 2 * (op.v & 1)), false), rb = Teakra_DataRead(cb, (uint16_t)(0x80D6 + 2 * (op.v & 1)), false), trace += "dr ";
+            break;
+        case 14:
+            cpp->ProgramWrite(op.v, (uint16_t)~op.v), Teakra_ProgramWrite(cb, op.v, (uint16_t)~op.v);
+            ra = cpp->ProgramRead(op.v), rb = Teakra_ProgramRead(cb, op.v), trace += "prog ";
+            break;
+        default:
+            cpp->DataWriteA32(0x10000u + op.v, op.v), Teakra_DataWriteA32(cb, 0x10000u + op.v, op.v);
+            ra = cpp->DataReadA32(0x10000u + op.v), rb = Teakra_DataReadA32(cb, 0x10000u + op.v), trace += "a32 ";
+            break;
+        }
+        auto fail = [&](const std::string& sig, const std::string& what) {
+            return vf::Result::fail(sig, what + " at op " + std::to_string(i) + " (" + trace + ")");
+        };
+        if (ra != rb)
+            return fail("C14:cbinding:value:" + std::to_string(op.kind), "the C binding returned " + vf::hex(rb) + " where the C++ API returned " + vf::hex(ra));
+        for (int k = 0; k < 3; ++k)
+            if (kc.data[k] != kb.data[k])
+                return fail("C14:cbinding:handler:data" + std::to_string(k), "data handler " + std::to_string(k) + " ran " + std::to_string(kb.data[k]) + " time(s) through the C binding, " +
+                                                                               std::to_string(kc.data[k]) + " through the C++ API");
+        if (kc.sem != kb.sem)
+            return fail("C14:cbinding:handler:sem", "semaphore handler ran " + std::to_string(kb.sem) + " time(s) through the C binding, " + std::to_string(kc.sem) + " through the C++ API");
+        for (uint16_t off : kDspRegs)
+            if (cpp->MMIORead(off) != Teakra_MMIORead(cb, off))
+                return fail("C14:cbinding:register:" + vf::hex(off), "DSP-side register " + vf::hex(off) + " reads " + vf::hex(Teakra_MMIORead(cb, off)) + " on the C-binding instance, " +
+                                                                       vf::hex(cpp->MMIORead(off)) + " on the C++ one");
+        for (int k = 0; k < 3; ++k)
+            if (cpp->SendDataIsEmpty((uint8_t)k) != (Teakra_SendDataIsEmpty(cb, (uint8_t)k) != 0) || cpp->RecvDataIsReady((uint8_t)k) != (Teakra_RecvDataIsReady(cb, (uint8_t)k) != 0))
+                return fail("C14:cbinding:flags:" + std::to_string(k), "ready / empty flags of channel " + std::to_string(k) + " differ between the two host APIs");
+        if (cpp->GetSemaphore() != Teakra_GetSemaphore(cb))
+            return fail("C14:cbinding:semaphore", "GetSemaphore differs between the two host APIs");
+    }
+    vf::klass("c_binding: same history through the C binding and the C++ API");
+    vf::note(vf::hash_str(bencode(cs)) ^ 0xCB, saw_send && saw_sem);
+    return vf::Result::pass();
+}
+rc::Gen<BCase> genBCase() {
+    using namespace rc;
+    auto opGen = gen::map(gen::tuple(vf::range<unsigned>(0, 16), vf::range<unsigned>(0, 3), vf::u16b()), [](std::tuple<unsigned, unsigned, uint16_t> t) {
+        return BOp{std::get<0>(t), std::get<1>(t), std::get<2>(t)};
+    });
+    return gen::container<BCase>(opGen);
+}
+
 } // namespace
 
 int main(int argc, char** argv) {
@@ -382,6 +523,16 @@ int main(int argc, char** argv) {
     p.encode = encode;
     p.decode = decode;
     p.max_size = 60;
+    p.share = 0.85;
     vf::run(p);
+    vf::Property<BCase> b;
+    b.name = "c_binding";
+    b.gen = [] { return genBCase(); };
+    b.check = bcheck;
+    b.encode = bencode;
+    b.decode = bdecode;
+    b.max_size = 60;
+    b.share = 0.15;
+    vf::run(b);
     return vf::finish();
 }
